@@ -220,6 +220,7 @@ def table() -> dict[str, Prop]:
     props["C08"].rules.append(PL.rule_oneline)         # raw source slices never span lines
     props["C16"].rules.append(PL.rule_oneline)
     props["C08"].rules.append(PL.rule_count)           # repetition-built markup has the scanned number of characters
+    props["C08"].rules.append(FR.rule_frame)           # getLines re-pads partial tabs on the absolute column of the line it cuts
     props["C12"].rules.append(EF.rule_eff_config)      # creating / configuring one instance writes nothing shared
     props["C13"].rules.append(EF.rule_alias)           # class-level mutables are shared between concurrent parses too
     return props
